@@ -320,7 +320,7 @@ func classifyRequest(req *http.Request) (clientProtocolHandler, url.Values) {
 			}
 			return nil, nil
 		}
-		values := req.URL.Query()
+		values := queryOf(req.URL)
 		if values.Get("connect") == "v1" {
 			if req.Method != http.MethodGet {
 				return nil, nil
@@ -350,7 +350,7 @@ func classifyRequest(req *http.Request) (clientProtocolHandler, url.Values) {
 			}
 			return connectUnaryPostClientProtocol{}, nil
 		}
-		values = req.URL.Query()
+		values = queryOf(req.URL)
 		if values.Get("connect") == "v1" {
 			if req.Method != http.MethodGet {
 				return nil, nil
@@ -363,6 +363,14 @@ func classifyRequest(req *http.Request) (clientProtocolHandler, url.Values) {
 	default:
 		return restClientProtocol{}, values
 	}
+}
+
+// queryOf parses the query like URL.Query, except that a semicolon is data: RFC 3986
+// allows it unescaped in a query, Go's server passes it on, but url.ParseQuery drops
+// every parameter that contains one (for a Connect GET, the whole message).
+func queryOf(u *url.URL) url.Values {
+	values, _ := url.ParseQuery(strings.ReplaceAll(u.RawQuery, ";", "%3B"))
+	return values
 }
 
 // operation represents a single HTTP operation, which maps to an incoming HTTP request.
@@ -433,7 +441,7 @@ func (o *operation) validate(transcoder *Transcoder) error {
 	} else if clientProtoHandler.protocol() == ProtocolREST {
 		// Parse it now: the request URL is rewritten for the backend before the request
 		// message (and with it the query parameters) is assembled.
-		o.queryVars = o.request.URL.Query()
+		o.queryVars = queryOf(o.request.URL)
 	}
 	o.originalHeaders = o.request.Header.Clone()
 	o.reqContentType = o.originalHeaders.Get("Content-Type")
@@ -538,7 +546,7 @@ func (o *operation) validate(transcoder *Transcoder) error {
 
 func (o *operation) queryValues() url.Values {
 	if o.queryVars == nil && o.request.URL.RawQuery != "" {
-		o.queryVars = o.request.URL.Query()
+		o.queryVars = queryOf(o.request.URL)
 	}
 	return o.queryVars
 }
